@@ -69,7 +69,15 @@ func hostileGenesis(r *rand.Rand, collide, ck int) *ct.GenesisState {
 		d := Domains[r.Intn(len(Domains))]
 		if !seenM[d] {
 			seenM[d] = true
-			gs.TokenMessengerList = append(gs.TokenMessengerList, ct.RemoteTokenMessenger{DomainId: d, Address: Messenger(d, r.Intn(2))})
+			addr := Messenger(d, r.Intn(2))
+			// only a genesis file can hold a messenger address that is not 32 bytes wide; it is an entry like any other
+			switch w := []int{32, 32, 20, 32, 33, 32, 64, 1, 31, 32, 0}[(len(gs.TokenMessengerList)+len(gs.UsedNoncesList))%11]; {
+			case w < 32:
+				addr = addr[32-w:]
+			case w > 32:
+				addr = append(addr, Structured32(byte(d))[:w-32]...)
+			}
+			gs.TokenMessengerList = append(gs.TokenMessengerList, ct.RemoteTokenMessenger{DomainId: d, Address: addr})
 		}
 	}
 	// optional fields present / absent
@@ -784,8 +792,47 @@ func keyClass(k string) string {
 
 // ---------------------------------------------------------------- C19
 
+// c19KeyValueSweep: for every domain id of sweepDomains the same life cycle on the two registries keyed by it: add a
+// messenger (ok), add it again (refused), link a token pair (ok), again (refused), unlink (ok), again (refused), remove
+// the messenger (ok), again (refused) - with the single-item queries after each step and the full comparison at the
+// end. Registries behave alike at every key value.
+func c19KeyValueSweep(rc *RunCtx) {
+	e, err := StdEngine(rc, false, false, func(gs *ct.GenesisState, cfg *chain.Config) {
+		gs.TokenPairList, gs.TokenMessengerList = nil, nil
+	})
+	if err != nil {
+		rc.Cov.Inconclusive("key value sweep: " + err.Error())
+		return
+	}
+	e.LightQueries = true
+	step := func(m sdk.Msg, kind string) {
+		r := e.Exec(Tx{Msgs: msgs1(m), Note: "C19 key value sweep: " + kind})
+		rc.Cov.Cell("C19_key_value_sweep", kind+"/"+okWord(r.OK))
+	}
+	for i, d := range sweepDomains() {
+		if i%rc.NShards != rc.Shard {
+			continue
+		}
+		step(&ct.MsgAddRemoteTokenMessenger{From: e.M.Owner, DomainId: d, Address: Messenger(d, 0)}, "messenger-add")
+		step(&ct.MsgAddRemoteTokenMessenger{From: e.M.Owner, DomainId: d, Address: Messenger(d, 1)}, "messenger-add-again")
+		step(&ct.MsgLinkTokenPair{From: e.M.TC, RemoteDomain: d, RemoteToken: Token(int(d) % NTokens), LocalToken: "uusdc"}, "pair-link")
+		step(&ct.MsgLinkTokenPair{From: e.M.TC, RemoteDomain: d, RemoteToken: Token(int(d) % NTokens), LocalToken: "ueure"}, "pair-link-again")
+		if i%5 == 0 {
+			e.FullQueryCheck(nil, []uint64{2, 7})
+		}
+		if i%3 != 0 { // two thirds are taken out again, one third stays (so the registries grow past a page)
+			step(&ct.MsgUnlinkTokenPair{From: e.M.TC, RemoteDomain: d, RemoteToken: Token(int(d) % NTokens), LocalToken: "uusdc"}, "pair-unlink")
+			step(&ct.MsgUnlinkTokenPair{From: e.M.TC, RemoteDomain: d, RemoteToken: Token(int(d) % NTokens), LocalToken: "uusdc"}, "pair-unlink-again")
+			step(&ct.MsgRemoveRemoteTokenMessenger{From: e.M.Owner, DomainId: d}, "messenger-remove")
+			step(&ct.MsgRemoveRemoteTokenMessenger{From: e.M.Owner, DomainId: d}, "messenger-remove-again")
+		}
+	}
+	e.FullQueryCheck(nil, []uint64{1, 3, 10, 100})
+}
+
 func runC19(rc *RunCtx) {
 	r := rc.Rand
+	c19KeyValueSweep(rc)
 	if rc.Shard == 1%rc.NShards {
 		attesterIdentifierStructure(rc, "C19_identifier_structure")
 	}
